@@ -1174,7 +1174,7 @@ assert "does not judge them either" not in PROPS["C14"]["partial_gap"]
 PROPS["C02"]["also"] = [("C06", "views"), ("C06", "rotation")]
 PROPS["C13"]["also"] = list(PROPS["C13"].get("also", [])) + [("C05", "panic")]
 
-# ---- ORACLE SOUNDNESS of the FDL monitors (agent fdlx; Proofs/FdlOracleSound1..5.v) --------------------------------
+# ---- ORACLE SOUNDNESS of the FDL monitors (agent fdlx; Proofs/FdlOracleSound1..7.v) --------------------------------
 # "The executable monitors of Model/FdlOracle.v that run on the implementation's transcripts never reject a transcript
 #  of the MODEL."  Texts only: what is proved per property, and which rules are NOT yet covered.
 _FDL_OS = ('ORACLE SOUNDNESS (Proofs/FdlOracleSound*.v): model_transcript = the event list the driver would build from a run of the model '
@@ -1203,5 +1203,7 @@ PROPS["C15"]["level_note"] += (' ' + _FDL_OS + 'C15_oracle_sound_partial: of the
 PROPS["C15"]["partial_gap"] += ' Oracle soundness: the liveness rule R15_no_reply_no_timeout is NOT yet covered.'
 PROPS["C11"]["partial_gap"] += (' Oracle soundness of the C11 monitor rules (accept_*, retry_*, removed_too_early, heard_but_supervising, '
     'offer_changes_ring_view, supervision_never_ends) is NOT yet proved.')
-PROPS["C12"]["partial_gap"] += (' Oracle soundness of the C12 monitor rules (gap_poll_outside_gap, two_gap_polls_per_visit, reply_*, found_*, '
-    'successor_changed_without_ready_reply, sweep_bound, post_claim_scan_incomplete, gap_wait_never_ends) is NOT yet proved.')
+PROPS["C12"]["level_note"] += (' ' + _FDL_OS + 'C12_oracle_sound_partial: the rules gap_poll_outside_gap, two_gap_polls_per_visit, found_not_successor, '
+    'found_not_next_token, successor_changed_without_ready_reply are never reported on a model transcript (all input histories, app_sends_data).')
+PROPS["C12"]["partial_gap"] += (' Oracle soundness: the rules reply_without_request, reply_untruthful, reply_from_wrong_state, sweep_bound, '
+    'post_claim_scan_incomplete, gap_wait_never_ends are NOT yet covered.')
